@@ -95,7 +95,7 @@ def build_program():
         # that a concurrent check of another tree cannot swap the binary in between
         with open(os.path.join(VERIF, ".cache", "witness-target.lock"), "w") as lk:
             fcntl.flock(lk, fcntl.LOCK_EX)
-            b = subprocess.run(["cargo", "build", "--release", "--offline"], cwd=wd, env=env, capture_output=True, text=True, timeout=1800)
+            b = subprocess.run(["cargo", "build", "--release", "--offline", "--bin", "qwt-witness"], cwd=wd, env=env, capture_output=True, text=True, timeout=1800)
             if b.returncode != 0:
                 _BUILD["r"] = (None, b.stderr[-1500:])
             else:
@@ -134,3 +134,29 @@ def run_suite(suite, seconds, seed):
             res["note"] = "unparsable output"
     json.dump(res, open(cp, "w"))
     return res
+
+
+def check_send_sync():
+    """type-checks replay/src/bin/sendsync.rs against the current tree: (ok, conclusive, compiler output)"""
+    wd = tempfile.mkdtemp(prefix="sendsync-", dir="/dev/shm")
+    try:
+        shutil.copytree(os.path.join(VERIF, "replay", "src"), os.path.join(wd, "src"))
+        open(os.path.join(wd, "Cargo.toml"), "w").write(open(os.path.join(VERIF, "replay", "Cargo.toml.in")).read().replace("@REPO@", REPO))
+        lock = os.path.join(VERIF, "replay", "Cargo.lock")
+        if os.path.exists(lock):
+            shutil.copy(lock, os.path.join(wd, "Cargo.lock"))
+        tdir = os.path.join(VERIF, ".cache", "witness-target")
+        os.makedirs(tdir, exist_ok=True)
+        env = dict(os.environ, CARGO_NET_OFFLINE="true", CARGO_TARGET_DIR=tdir)
+        import fcntl
+        with open(os.path.join(VERIF, ".cache", "witness-target.lock"), "w") as lk:
+            fcntl.flock(lk, fcntl.LOCK_EX)
+            b = subprocess.run(["cargo", "check", "--release", "--offline", "--bin", "sendsync"], cwd=wd, env=env, capture_output=True, text=True, timeout=1800)
+        if b.returncode == 0:
+            return True, True, ""
+        err = b.stderr
+        only_auto_trait = ("E0277" in err and ("cannot be sent between threads safely" in err or "cannot be shared between threads safely" in err)
+                           and "sendsync.rs" in err)
+        return False, only_auto_trait, err[-3000:]
+    finally:
+        shutil.rmtree(wd, ignore_errors=True)
